@@ -186,6 +186,30 @@ def ob_modes():
     return h
 
 
+def ob_isexec():
+    """the default permissions hinge on is_executable(): a file counts as executable iff ANY of its three x bits is set; then sanitize_permissions applies
+    0777 resp. 0666 masked by the umask - both real functions, the source's mode bits symbolic"""
+    def h():
+        import os as _os
+        bits = [sym_int('mode_bit%d' % i, 0, 1) for i in range(9)]
+        mode = sum((b * (1 << i) for i, b in enumerate(bits)), 0)        # permission bits only (the engine's bit operations cover 12 bits; the file-type bits play no role in the mask)
+        rec = []
+        fos = types.SimpleNamespace(stat=lambda p, follow_symlinks=True: types.SimpleNamespace(st_mode=mode), path=_os.path)
+        saved = (MI.os, MI.set_chmod)
+        MI.os = fos
+        MI.set_chmod = lambda path, m, dir_fd=None, follow_symlinks=True: rec.append(m)
+        try:
+            got = MI.is_executable('/D/x', follow_symlinks=False)
+            MI.sanitize_permissions('/D/x', 0o022)
+        finally:
+            MI.os, MI.set_chmod = saved
+        anyx = sym_or(bits[0] == 1, bits[3] == 1, bits[6] == 1)
+        check(eq(mkbool(bt_any(got)) if not isinstance(got, bool) else got, anyx), 'executable iff any x bit (user, group or other) is set')
+        check(len(rec) == 1 and decide(bt_any(eq(rec[0], sym_ite(anyx, 0o755, 0o644)))), 'default permissions: 0777 for an executable, else 0666, masked by the umask')
+        cover('done')
+    return h
+
+
 def mk_installer(dry_run, tags, skip):
     ins = object.__new__(MI.Installer)
     ins.options = types.SimpleNamespace(quiet=True, only_changed=False)
@@ -437,6 +461,7 @@ def obligations(tier):
                               labels=('relative',) + (('absolute',) if lp > 1 else ()), max_paths=3000000))
     out.append(Obligation('modes', ob_modes(), dict(umask='9 symbolic bits or preserve', perms='9 symbolic characters over rwxsStT-', executable='symbolic'),
                           labels=('declared', 'umask', 'preserve', 'owner', 'perms-rejected'), max_paths=5000000))
+    out.append(Obligation('is-executable', ob_isexec(), dict(mode='9 symbolic permission bits', umask='022'), labels=('done',)))
     out.append(Obligation('selection', ob_selection(), dict(tags='none | runtime | runtime,devel', skip_subprojects='none | sub | *', entry='4 tags x 3 subprojects', dry_run='symbolic'),
                           labels=('admitted', 'skipped')))
     out.append(Obligation('copydir-world', ob_copydir_world(), dict(tree='3 sibling directories (empty or one file) + a top-level file', exclude_directories='symbolic subset', exclude_files='symbolic subset'), labels=('done',)))
